@@ -125,12 +125,23 @@ def _slice_list(lst, sl):
     return out
 
 
-def arange(n):
+def arange(start, stop=None, step=None):
+    if stop is None:
+        start, stop = 0, start
+    if step is None:
+        step = 1
+    if step == 0:
+        raise ZeroDivisionError('Maximum allowed size exceeded')
     out = ndarray()
-    i = 0
-    while i < n:
-        out.append(i)
-        i += 1
+    i = start
+    if step > 0:
+        while i < stop:
+            out.append(i)
+            i += step
+    else:
+        while i > stop:
+            out.append(i)
+            i += step
     return out
 
 
